@@ -4,6 +4,7 @@ import (
 	"crypto/sha1"
 	"encoding/hex"
 	"math/rand"
+	"os"
 )
 
 // inputSpec describes a (possibly large) input without shipping its bytes through JSON.
@@ -14,6 +15,7 @@ type inputSpec struct {
 	P1     int    `json:"p1,omitempty"` // period / distance
 	P2     int    `json:"p2,omitempty"` // match length
 	Bytes  []int  `json:"bytes,omitempty"`
+	Path   string `json:"path,omitempty"` // family "file": the bytes of this file
 }
 
 const words = "the of and a to in is you that it he was for on are as with his they I at be this have from or one had by word but not what all were we when your can said there use an each which she do how their if will up other about out many then them these so some her would make like him into time has look two more write go see number no way could people my than first water been call who oil its now find long down day did get come made may part "
@@ -21,6 +23,13 @@ const words = "the of and a to in is you that it he was for on are as with his t
 func (s inputSpec) build() []byte {
 	if s.Bytes != nil {
 		return bytesOf(s.Bytes)
+	}
+	if s.Family == "file" {
+		b, err := os.ReadFile(s.Path)
+		if err != nil {
+			panic(err)
+		}
+		return b
 	}
 	r := rand.New(rand.NewSource(s.Seed*7919 + int64(s.Len)))
 	b := make([]byte, s.Len)
